@@ -136,3 +136,21 @@ Theorem C17_fullscan_highest_common : forall lc rc m right fuel,
        else match hash_at lc (m - 1) with Some h => Some (h, m - 1)%N | None => None end).
 Proof. exact fullscan_highest_common. Qed.
 Print Assumptions C17_fullscan_highest_common.
+
+(** The height handed to the full scan as "last anchor" is the height of an anchor of the list,
+    and the full scan covers every height below it: with the fork at or below the lowest
+    anchor the highest common block is found. *)
+Theorem C17_last_anchor_is_an_anchor : forall lc, In (last_anchor lc) (anchors lc).
+Proof. exact last_anchor_is_an_anchor. Qed.
+Print Assumptions C17_last_anchor_is_an_anchor.
+
+Theorem C17_fullscan_range_covers_below_last_anchor : forall lc rc m fuel,
+  (0 < last_anchor lc)%N -> (m <= last_anchor lc)%N ->
+  (forall i, (i < m)%N -> exists h, hash_at lc i = Some h /\ hash_at rc i = Some h) ->
+  (forall i, (m <= i < last_anchor lc)%N -> exists a b, hash_at lc i = Some a /\ hash_at rc i = Some b /\ a <> b) ->
+  (N.to_nat (last_anchor lc) < fuel)%nat ->
+  bin_search fuel lc (truthful rc) 0 (last_anchor lc - 1) None =
+  inl (if (m =? 0)%N then None
+       else match hash_at lc (m - 1) with Some h => Some (h, m - 1)%N | None => None end).
+Proof. exact fullscan_range_covers_below_last_anchor. Qed.
+Print Assumptions C17_fullscan_range_covers_below_last_anchor.
